@@ -51,8 +51,11 @@ def _sort_meta(entries):
         e.key, e.value = k, v
 
 
-def _norm_graph(g):
+def _norm_graph(g, keep_init_vi=None):
     inits = {t.name for t in g.initializer} | {s.values.name for s in g.sparse_initializer}
+    if keep_init_vi is not None:
+        # value-info of an initializer may be ADDED by the library; an entry the input already had must survive as it was
+        inits = inits - keep_init_vi.get(g.name, set())
     names = set()
     for n in g.node:
         names.update(n.input)
@@ -76,10 +79,10 @@ def _norm_graph(g):
     for q in g.quantization_annotation:
         _sort_meta(q.quant_parameter_tensor_names)
     for n in g.node:
-        _norm_node(n)
+        _norm_node(n, keep_init_vi)
 
 
-def _norm_node(n):
+def _norm_node(n, keep_init_vi=None):
     if n.domain == "ai.onnx":
         n.domain = ""
     while len(n.output) and n.output[-1] == "":
@@ -87,10 +90,10 @@ def _norm_node(n):
     _sort_meta(n.metadata_props)
     for a in n.attribute:
         if a.type == onnx.AttributeProto.GRAPH:
-            _norm_graph(a.g)
+            _norm_graph(a.g, keep_init_vi)
         elif a.type == onnx.AttributeProto.GRAPHS:
             for g in a.graphs:
-                _norm_graph(g)
+                _norm_graph(g, keep_init_vi)
         elif a.type == onnx.AttributeProto.TENSOR:
             _sort_meta(a.t.metadata_props)
         elif a.type == onnx.AttributeProto.TENSORS:
@@ -106,11 +109,32 @@ def _norm_opsets(entries):
         e.domain, e.version = d, v
 
 
-def norm(p: onnx.ModelProto) -> onnx.ModelProto:
+def initializer_value_info(p: onnx.ModelProto):
+    """{graph name: names of initializers that have a value-info entry} for every graph of the model"""
+    out = {}
+
+    def walk(g):
+        inits = {t.name for t in g.initializer}
+        out.setdefault(g.name, set()).update(v.name for v in g.value_info if v.name in inits)
+        for n in g.node:
+            for a in n.attribute:
+                if a.type == onnx.AttributeProto.GRAPH:
+                    walk(a.g)
+                elif a.type == onnx.AttributeProto.GRAPHS:
+                    for s_ in a.graphs:
+                        walk(s_)
+
+    walk(p.graph)
+    return out
+
+
+def norm(p: onnx.ModelProto, keep_init_vi=None) -> onnx.ModelProto:
+    """keep_init_vi: initializer value-info entries (per graph name) that the ORIGINAL proto had - they are compared,
+    entries beyond them are the documented addition and are dropped.  None = drop every initializer value-info."""
     q = onnx.ModelProto.FromString(p.SerializeToString())
     _norm_opsets(q.opset_import)
     _sort_meta(q.metadata_props)
-    _norm_graph(q.graph)
+    _norm_graph(q.graph, keep_init_vi)
     for f in q.functions:
         _norm_opsets(f.opset_import)
         _sort_meta(f.metadata_props)
